@@ -296,10 +296,14 @@ def run_init(case):
     na, nb = case["nelec"]
     cls = case["class"]
     F = fockref.get(norb)
-    t = trials.make(kind, norb, (na, nb), rng, orthonormal=True)
+    # rhf / uhf trials may have complex orbitals (complex Hermitian density matrix): every other case of the generic and ROHF-like classes
+    cplx = bool(kind in ("rhf", "uhf") and cls in ("generic", "rohf-like") and case["s"] % 2 == 1)
+    t = trials.make(kind, norb, (na, nb), rng, orthonormal=True, complex_orbs=cplx)
     # shape the trial class through its orbitals
     if kind in ("uhf",) and cls != "generic":
         qa = trials.rand_orth(rng, norb)
+        if cplx:
+            qa = np.linalg.qr(rng.normal(size=(norb, norb)) + 1j * rng.normal(size=(norb, norb)))[0]
         a = qa[:, :na]
         if cls == "rohf-like":
             b = a[:, :nb]
@@ -381,7 +385,7 @@ def run_init(case):
         e = np.asarray(trial.calc_energy(jnp.array(w), hd, wd_))
         events.append(judge("init/variational-energy", abs(e[0] - evar), 1e-9 * measure.ham_scale(h0, h1, chol), key + "/variational-energy/rohf-like",
                             e=complex(e[0]), ref=complex(evar)))
-    return {"events": events, "nontrivial": True, "sample": {"kind": kind, "class": cls, "restricted": case["restricted"], "overlap": float(abs(ov_ref))},
+    return {"events": events, "nontrivial": True, "sample": {"kind": kind, "class": cls, "restricted": case["restricted"], "overlap": float(abs(ov_ref)), "complex_trial_orbitals": cplx},
             "counters": cnt}
 
 
